@@ -71,7 +71,117 @@ let b2s b = if b then "1" else "0"
 
 let parse_bits () : bool list = let n = next_int () in times n (fun () -> next () = "1")
 
+let rec int_of_pos = function XH -> 1 | XO p -> 2 * int_of_pos p | XI p -> 2 * int_of_pos p + 1
+let int_of_n = function N0 -> 0 | Npos p -> int_of_pos p
+
+(* mode tx: <id> <nfile> <table ids> <n> <B|C|R|X|T<id>>* *)
+let tx_main () =
+  (try
+    while true do
+      let line = input_line stdin in
+      if line <> "" then begin
+        toks := Array.of_list (Stdlib.List.filter (fun s -> s <> "") (String.split_on_char ' ' line));
+        pos := 0;
+        let id = next () in
+        let nf = next_int () in
+        let file = times nf (fun () -> n_of_int (next_int ())) in
+        let n = next_int () in
+        let ss = times n (fun () ->
+          match next () with
+          | "B" -> TBegin | "C" -> TCommit | "R" -> TRollback | "X" -> TBad
+          | t when t.[0] = 'T' -> TCreate (n_of_int (int_of_string (String.sub t 1 (String.length t - 1))))
+          | t -> failwith ("tstmt " ^ t)) in
+        let (o, left) = tx_observe ss file in
+        let os = match o with
+          | TOk -> "ok" | TRefused -> "refused" | TRestoreFail -> "rfail"
+          | TFail k -> Printf.sprintf "fail:%d" (int_of_nat k) in
+        let tabs = Stdlib.List.sort compare (Stdlib.List.map int_of_n left) in
+        let ts = if tabs = [] then "-" else String.concat "," (Stdlib.List.map string_of_int tabs) in
+        Printf.printf "%s out=%s tabs=%s\n" id os ts
+      end
+    done
+  with End_of_file -> ())
+
+(* mode server: <id> <m|p> <bound> <nsch> {<sid> <nt> <tids>}* <sess n {op s t}* | norms n {..} | normr n {..}> <nf> <positions> *)
+let server_main () =
+  let opt i = if i < 0 then None else Some (n_of_int i) in
+  let parse_schs () =
+    let n = next_int () in
+    times n (fun () -> let id = next_int () in let nt = next_int () in
+      let ts = times nt (fun () -> n_of_int (next_int ())) in { s_id = n_of_int id; s_tabs = ts }) in
+  (try
+    while true do
+      let line = input_line stdin in
+      if line <> "" then begin
+        toks := Array.of_list (Stdlib.List.filter (fun s -> s <> "") (String.split_on_char ' ' line));
+        pos := 0;
+        let id = next () in
+        let dialect = next () in
+        let bound = next_int () in
+        let schs = parse_schs () in
+        let parse_body () =
+          let n = next_int () in
+          times n (fun () ->
+              let op = next () in let s = next_int () in let t = next_int () in
+              match op with
+              | "ct" -> SCt (opt s, n_of_int t) | "dt" -> SDt (opt s, n_of_int t)
+              | "cs" -> SCs (n_of_int s, false) | "ds" -> SDs (n_of_int s) | "bad" -> SBadS
+              | o -> failwith ("sstmt " ^ o)) in
+        let body2 = ref None in
+        let scen = match next () with
+          | "sess" -> ScSess (parse_body ())
+          | "twice" -> let b1 = parse_body () in body2 := Some (parse_body ()); ScSess b1
+          | "norms" -> (match parse_schs () with [d] -> ScNormS d.s_tabs | _ -> failwith "norms")
+          | "normr" -> ScNormR (parse_schs ())
+          | s -> failwith ("scenario " ^ s) in
+        let nf = next_int () in
+        let positions = times nf (fun () -> nat_of_int (next_int ())) in
+        let total = 400 in
+        let fs = fault_stream positions (nat_of_int total) in
+        let pg_cur = if bound < 0 then Some N0 else opt bound in
+        let (r, r2) = match !body2, scen with
+          | Some b2, ScSess b1 ->
+            let (a, b) =
+              if dialect = "p" then run_twice_pg (opt bound) b1 b2 { sv_schemas = schs; sv_cur = pg_cur } fs
+              else run_twice b1 b2 { sv_schemas = schs; sv_cur = opt bound } fs in
+            (a, Some b)
+          | _ -> ((
+          if dialect = "p" then
+            (* PostgreSQL: Driver.schema = the bound schema; CURRENT_SCHEMA() = it, or "public" (id 0) *)
+            run_scenario_pg (opt bound) scen { sv_schemas = schs; sv_cur = (if bound < 0 then Some N0 else opt bound) } fs
+          else run_scenario scen { sv_schemas = schs; sv_cur = opt bound } fs), None) in
+        let is_sess = (match scen with ScSess _ -> true | _ -> false) in
+        let out_s (r : sresult) = match r.r_out with
+          | SOk -> "ok" | SRefused -> "refused" | SErr -> "err"
+          (* Normalize* return Snapshot's error like any other: the caller cannot tell them apart *)
+          | SSnapErr -> if is_sess then "snaperr" else "err"
+          | SFail k -> Printf.sprintf "fail:%d" (int_of_nat k) in
+        let rerr_s (r : sresult) = if is_sess && r.r_ran && not r.r_restored then 1 else 0 in
+        let os = out_s r in
+        let rerr = rerr_s r in
+        let last = (match r2 with Some b -> b | None -> r) in
+        let calls = total - Stdlib.List.length last.r_fs in
+        let ev = function
+          | ECt (s, t) -> Printf.sprintf "ct:%d.%d" (int_of_n s) (int_of_n t)
+          | EDt (s, t) -> Printf.sprintf "dt:%d.%d" (int_of_n s) (int_of_n t)
+          | ECs s -> Printf.sprintf "cs:%d" (int_of_n s)
+          | EDs s -> Printf.sprintf "ds:%d" (int_of_n s) in
+        let all_trace = r.r_trace @ (match r2 with Some b -> b.r_trace | None -> []) in
+        let tr = if all_trace = [] then "-" else String.concat "," (Stdlib.List.map ev all_trace) in
+        let fin = if last.r_srv.sv_schemas = [] then "-" else
+          String.concat ";" (Stdlib.List.map (fun s ->
+            Printf.sprintf "%d:%s" (int_of_n s.s_id) (String.concat "," (Stdlib.List.map (fun t -> string_of_int (int_of_n t)) s.s_tabs)))
+            last.r_srv.sv_schemas) in
+        (match r2 with
+         | None -> Printf.printf "%s out=%s rerr=%d calls=%d trace=%s final=%s\n" id os rerr calls tr fin
+         | Some b -> Printf.printf "%s out=%s rerr=%d calls=%d trace=%s final=%s out2=%s rerr2=%d\n" id os rerr calls tr fin (out_s b) (rerr_s b))
+      end
+    done
+  with End_of_file -> ())
+
 let () =
+  if Array.length Sys.argv > 1 && Sys.argv.(1) = "tx" then tx_main () else
+  if Array.length Sys.argv > 1 && Sys.argv.(1) = "server" then server_main () else
   (try
     while true do
       let line = input_line stdin in
